@@ -590,6 +590,16 @@ def install(R):
             fs = v.snapshot()
             return NdArr.from_fn("array", (v.length,), k, lambda i: cast(z3.Select(fs.term, i), k),
                                  (lambda i: fs.isnan(i)) if fs.nan is not None else None)
+        from .engine import SymSeq
+        if isinstance(v, SymSeq):
+            # a lazy sequence of scalars: the array of its elements (kind from one generic element)
+            pk = z3.Int(fresh_name("probe"))
+            probe = E.side_eval(z3.And(pk >= 0, pk < z(v.length)), lambda: v.item(pk))
+            if is_num_like(probe):
+                k = kind_of_dtype(dtype, "real" if is_real_like(probe) else ("bool" if is_bool_like(probe) else "int"))
+                ik = z3.Int(fresh_name("ai"))
+                body = E.side_eval(z3.And(ik >= 0, ik < z(v.length)), lambda: cast(v.item(ik), k))
+                return NdArr((v.length,), Cell(z3.Lambda([ik], body), 1, name="array"), kind=k)
         hook = getattr(R, "np_array_hook", None)
         if hook is not None:
             r = hook(E, v, dtype, kw)
